@@ -4,8 +4,8 @@ from ._generic import make, STD_TRUST
 globals().update(
     make(
         pid="C03",
-        props=["JaqalProofs/Props/C03.lean", "JaqalProofs/Lemmas/WalkSerialize.lean", "JaqalProofs/Props/C03Unitary.lean", "JaqalProofs/Props/C03Run.lean"],
-        targets=["JaqalProofs.Props.C03", "JaqalProofs.Lemmas.WalkSerialize", "JaqalProofs.Props.C03Unitary", "JaqalProofs.Props.C03Run"],
+        props=["JaqalProofs/Props/C03.lean", "JaqalProofs/Lemmas/WalkSerialize.lean", "JaqalProofs/Props/C03Unitary.lean", "JaqalProofs/Props/C03Run.lean", "JaqalProofs/Props/C03End.lean"],
+        targets=["JaqalProofs.Props.C03", "JaqalProofs.Lemmas.WalkSerialize", "JaqalProofs.Props.C03Unitary", "JaqalProofs.Props.C03Run", "JaqalProofs.Props.C03End"],
         diffs=[("harness.agents.emu_diff", 400, 4000), ("harness.agents.walk_diff", 600, 6000), ("harness.agents.c03_gatesets", 400, 2500), ("harness.agents.c03_edge", 2000, 20000), ("harness.agents.c03_scale", 120, 300), ("harness.agents.c03_combo", 250, 8000), ("harness.agents.c03_traps", 600, 6000)],
         trusted=[
             STD_TRUST,
